@@ -462,6 +462,16 @@ def run_case(case, ctx):  # noqa: C901
                         "load_hex_string-bytes-size-unchecked" if name == "bytes" else "load_hex_string-wrong-size-accepted",
                         {"form": name, "size": size, "expected_size": wrong, "got_len": len(got)},
                     )
+            # a key is a byte string: a text with MORE digits than the expected size is not that key, even when the
+            # surplus leading bytes are zero (the SB3.1 PCK size probing relies on this)
+            for pre in ("00", "0000", "00" * size):
+                for src in (pre + key.hex(), "0x" + pre + key.hex()):
+                    n += 1
+                    try:
+                        got = misc.load_hex_string(src, size)
+                        ctx.violation("load_hex_string-leading-zero-bytes-dropped", {"size": size, "text_bytes": size + len(pre) // 2, "got_len": len(got)})
+                    except SPSDKError:
+                        pass
             os.remove(p)
             os.remove(pb)
         for bad in ["xyz", "0x12zz"]:
